@@ -310,17 +310,31 @@ async fn exec_op(env: &Arc<Env>, c: u16, i: u16, op: Op, slots: &mut Vec<Slot>) 
                 Some(H::Addr(a)) => {
                     let ws = a.weak_sender_seq();
                     let mut ok = 0u64;
+                    let mut waited = 0u32;
                     // sequence numbers continue over the bursts of one client
                     let base = env.burst_base(c, count);
                     for k in 0..count {
                         let m = Seq { client: c, n: base + k };
-                        let r = if force_every > 0 && k % force_every as u32 == force_every as u32 - 1 { ws.try_force_send(m) } else { a.send_seq(m).await };
+                        let r = if force_every > 0 && k % force_every as u32 == force_every as u32 - 1 {
+                            ws.try_force_send(m)
+                        } else {
+                            // one explicit first poll: did this send have to wait?
+                            let mut f = a.send_seq(m);
+                            match futures::poll!(&mut f) {
+                                std::task::Poll::Ready(r) => r,
+                                std::task::Poll::Pending => {
+                                    waited += 1;
+                                    f.await
+                                }
+                            }
+                        };
                         if r.is_ok() {
                             ok += 1;
                         } else {
                             break;
                         }
                     }
+                    log::log(K::OpPolls { c, i, pending: waited });
                     Res::Count(ok)
                 }
                 _ => Res::Skipped,
